@@ -127,6 +127,13 @@ def families(tier):
         out.append(dict(prop='C07', family='c07.second_route_after_rejection', id=f'c07/rej2nd-n{nfill}-d{int(drain_all)}-o{"".join(order)}', cfg=dict(cfg2, max_points=400),
                         params=dict(edges=edges, entry='A', rejected_first=True, drain_all=drain_all),
                         scn=dict(buses={b: {} for b in names}, order=order, handlers=hs, reg=reg, main=[('disp', 'A', 'P', 'ff')], actors=[], forwards=edges, settle=3.0, no_watch=True)))
+    # three buses all REQUESTED under one name (legitimate: the library warns and renames the newcomers): they are still three different buses
+    for sname, edges in shapes.items():
+        for entry in names:
+            for order in (names, names[::-1]):
+                out.append(dict(prop='C07', family='c07.same_requested_name', id=f'c07/samename-{sname}-{entry}-o{"".join(order)}', cfg=cfg2, params=dict(edges=edges, entry=entry),
+                                scn=dict(buses={b: dict(req_name='Worker') for b in names}, order=order, handlers=probes(names), main=[('disp', entry, 'P', 'ff')], actors=[],
+                                         forwards=edges, settle=3.0)))
     if deep:
         n4 = ['A', 'B', 'C', 'D']
         offdiag = [(i, j) for i in range(4) for j in range(4) if i != j]
